@@ -20,6 +20,7 @@ RULE = (
     "batches or a batch that permutes names; distinct = (node kind, canonical history)."
     ' Also: a MAPPED if/else graph whose items take different branches, wrapper outputs renamed by 1-3 batches, compared with the un-renamed wrapper under the forward map.'
     ' Also: the mapped work list bound on the inner graph (caller leaves it alone) with the renames applied before and after map_over.'
+    ' Directed: constructor renames (rename_inputs=) that map a parameter onto the name of another parameter must be refused as with_inputs() refuses them, or honoured (function nodes, both gate kinds, interrupts).'
 )
 ASSUMPTIONS = [
     "each parameter carries a distinct annotation and default so that a mix-up between parameters is visible",
